@@ -5,6 +5,7 @@
 
 mod conn;
 mod resp;
+mod sched;
 mod server;
 mod store;
 mod util;
@@ -22,6 +23,7 @@ fn main() {
         "store" => store::main(rest),
         "recover" => store::recover_main(rest),
         "server" => server::main(rest),
+        "sched" => sched::main(rest),
         m => {
             eprintln!("unknown mode {}", m);
             2
